@@ -88,6 +88,11 @@ def run_case(seed):
 
     payload = rng.choice(['ints', 'random', 'special', 'smallints'])
     pf = gen.gen_plotfile(rng, max_blocks=2, payload=payload, allow_repeat=True, awkward=0.3, odd0=0.25)
+    rs = random.Random(seed * 613 + 2)
+    if rs.random() < 0.3:
+        # a slab: the domain is one cell thick in one direction (2**lv cells at level lv)
+        gen.flatten_axis(pf, rs.randrange(pf.ndims))
+    count(f"slab one cell thick={'slab_axis' in pf.meta}")
     warnings.simplefilter('ignore')
     # np.nanmin / np.nanmax on SIGNALLING NaNs is platform dependent (C fmin returns a quiet NaN for a
     # signalling operand and the running extremum is lost: nanmin([1, sNaN, 2]) = 2): outside the model.
@@ -114,6 +119,10 @@ def run_case(seed):
     img, data_wf = nan_aware_image(pf, fixed)
     path = core.scratch_dir(f"c03_{seed}")
     diskimg.write_image(img, path)
+    if rs.random() < 0.35:
+        # level directories / binary files that are symbolic links to differently named targets
+        pf.meta['symlinks'] = gen.symlink_parts(path, core.scratch_dir(f"c03_{seed}_store"), rs)
+    count(f"symbolic links inside the plotfile={'symlinks' in pf.meta}")
     # the directory as a user may spell it: trailing separators, relative to the working directory
     r2 = random.Random(seed * 151 + 9)
     spelling = r2.choice(['{p}', '{p}', '{p}/', '{p}//', '{rel}', './{rel}/'])
@@ -135,12 +144,14 @@ def run_case(seed):
             mgood = mall[k]
             for nofail in (True, False):
                 core.set_policy(rng.choice(['identity', 'reverse', 'random']), seed)
-                verdict, detail = tc.impl_taste(spath, limit, opts, nofail)
+                verb = rs.choice([0, 0, 1, 2, 3])
+                verdict, detail = tc.impl_taste(spath, limit, opts, nofail, verbose=verb)
                 out['evals'] += 1
+                count(f"verbosity={verb}")
                 count(f"verdict={verdict}")
                 count(f"reaches data check={reaches_data_check(opts)}")
                 desc = dict(seed=seed, limit_level=limit, options=dict(zip(tc.OPT_NAMES, opts)), nofail=nofail,
-                            meta=pf.meta)
+                            verbose=verb, meta=pf.meta)
                 out['keys'].append(core.khash(seed, limit, opts, nofail))
                 if not out['samples']:
                     out['samples'].append(dict(desc, verdict=verdict))
